@@ -217,7 +217,7 @@ def depthMasked (rel : Rat) (frs : List (Nat × Nat × Rat)) (px py : Nat) : Boo
 
 def inViewport (s : Scene) (px py : Nat) : Bool :=
   let (l, t, r, b) := s.vp
-  l ≤ px && px < r && t ≤ py && py < b
+  Nat.min l r ≤ px && px < Nat.max l r && Nat.min t b ≤ py && py < Nat.max t b
 
 def attrRange (s : Scene) : Rat :=
   let vals := s.verts.map fun v => ratOf ((v.drop (4 + s.sel)).headD 0)
